@@ -45,6 +45,8 @@ type ReadPass struct {
 	// Reuse: decode every frame of a kind into ONE destination message (it
 	// still holds the previous frame's contents), as a reader loop would.
 	Reuse bool `json:"reuse,omitempty"`
+	// Wrap: the concrete reader type the stream is handed over as (source.go).
+	Wrap string `json:"wrap,omitempty"`
 }
 
 type FramesClean struct{}
@@ -86,7 +88,7 @@ func genBigPolicy(r *engine.PRNG) simio.ChunkPolicy {
 }
 
 func genPass(r *engine.PRNG) ReadPass {
-	p := ReadPass{Policy: genPolicy(r), Piggyback: r.Chance(1, 2), Reuse: r.Chance(1, 2)}
+	p := ReadPass{Policy: genPolicy(r), Piggyback: r.Chance(1, 2), Reuse: r.Chance(1, 2), Wrap: wrapKinds[r.Intn(len(wrapKinds))]}
 	if r.Chance(1, 3) {
 		p.StallSeed, p.StallDen = r.Uint64(), r.PickInt(2, 3, 5)
 	}
@@ -108,6 +110,9 @@ func (FramesClean) Generate(seed uint64, tier string) engine.Plan {
 			w.Dest = "section" // an endless destination must be the last on the disk
 		}
 		nm := 1 + r.Intn(6)
+		if deep(tier) && r.Chance(1, 10) {
+			nm = 6 + r.Intn(10) // thorough tier: long streams
+		}
 		total := int64(0)
 		bigAt := -1
 		if r.Chance(1, 80) {
@@ -247,8 +252,17 @@ func checkFrameWritten(inv string, step int, spec MsgSpec, msg proto.Message, n 
 
 // readAll reads frames from s one per call and checks each against specs.
 // It is the reader half of the C06 oracle.
-func readAllFrames(inv string, stepBase int, s *simio.Stream, specs []MsgSpec, frameLens []int64, c *engine.RunCtx, task int, reuse bool) *engine.Failure {
+func readAllFrames(inv string, stepBase int, s *simio.Stream, wrap string, data []byte, specs []MsgSpec, frameLens []int64, c *engine.RunCtx, task int, reuse bool) *engine.Failure {
+	src := newSource(wrap, s, data)
+	if wrap != "" {
+		c.Stats.Inc("probe.C06.source_is_" + wrap)
+	}
 	dest := map[string]proto.Message{}
+	// what each call returned is KEPT until the end of the pass: a returned
+	// version string (or a decoded message that is not being reused) is a value
+	// and must still be what it was after later calls
+	keptVer := make([]string, len(specs))
+	keptMsg := make([]proto.Message, len(specs))
 	for i, spec := range specs {
 		step := stepBase + i
 		msg := spec.Empty()
@@ -260,13 +274,13 @@ func readAllFrames(inv string, stepBase int, s *simio.Stream, specs []MsgSpec, f
 				dest[spec.Kind] = msg
 			}
 		}
-		before := s.Pos
-		s.BeginCall()
+		before := src.pos()
+		src.beginCall()
 		c.Status.SetStep(uint64(step), 1)
-		n, ver, err, pan := callUnmarshal(s, msg)
+		n, ver, err, pan := callUnmarshal(src.r, msg)
 		c.Status.SetStep(uint64(step), 0)
 		c.LibCalls++
-		c.EvS(task, "unmarshal", ver, n, int64(s.Pos-before))
+		c.EvS(task, "unmarshal", ver, n, int64(src.pos()-before))
 		if pan != nil {
 			if la, ok := pan.(simio.LivenessAbort); ok {
 				return engine.Failf(inv+".live", step, "Unmarshal kept reading a dead stream (%d reads)", la.Reads)
@@ -279,14 +293,26 @@ func readAllFrames(inv string, stepBase int, s *simio.Stream, specs []MsgSpec, f
 		if n != frameLens[i] {
 			return engine.Failf(inv+".read_count", step, "Unmarshal of frame %d returned n=%d, frame is %d bytes", i, n, frameLens[i])
 		}
-		if int64(s.Pos-before) != n {
-			return engine.Failf(inv+".consumed", step, "Unmarshal of frame %d returned n=%d but consumed %d bytes of the stream (must consume exactly one frame)", i, n, s.Pos-before)
+		if int64(src.pos()-before) != n {
+			return engine.Failf(inv+".consumed", step, "Unmarshal of frame %d returned n=%d but consumed %d bytes of the reader it was given (%q; must consume exactly one frame)", i, n, src.pos()-before, wrap)
 		}
 		if !verOK(ver, spec.WantVersions()) {
 			return engine.Failf(inv+".version", step, "Unmarshal of frame %d returned version %q, want one of %q", i, ver, spec.WantVersions())
 		}
 		if !spec.SameContent(msg) {
 			return engine.Failf(inv+".message", step, "Unmarshal of frame %d yielded a different message", i)
+		}
+		keptVer[i] = ver
+		if !reuse {
+			keptMsg[i] = msg
+		}
+	}
+	for i, spec := range specs {
+		if !verOK(keptVer[i], spec.WantVersions()) {
+			return engine.Failf(inv+".version.retained", stepBase+i, "the version string Unmarshal returned for frame %d was right when returned but reads %q after the later calls of the pass (want one of %q): it aliases memory that is reused", i, keptVer[i], spec.WantVersions())
+		}
+		if keptMsg[i] != nil && !spec.SameContent(keptMsg[i]) {
+			return engine.Failf(inv+".message.retained", stepBase+i, "the message decoded from frame %d changed after the later calls of the pass", i)
 		}
 	}
 	return nil
@@ -444,7 +470,11 @@ func (FramesClean) Execute(pl engine.Plan, c *engine.RunCtx) *engine.Failure {
 			}
 			stream.StallSeed, stream.StallDen, stream.Piggyback = pass.StallSeed, pass.StallDen, pass.Piggyback
 			policies[pass.Policy.Kind] = true
-			if f := readAllFrames("C06", 100000+wi*10000+pi*100, stream, w.Msgs, s.frameLens, c, wi, pass.Reuse); f != nil {
+			wrap := pass.Wrap
+			if pass.Via == "atreader" && (wrap == "bytesreader" || wrap == "bytesbuffer") {
+				wrap = "" // keep the real AtToReader in the path
+			}
+			if f := readAllFrames("C06", 100000+wi*10000+pi*100, stream, wrap, s.written, w.Msgs, s.frameLens, c, wi, pass.Reuse); f != nil {
 				return f
 			}
 			if len(w.Msgs) > 1 {
@@ -542,6 +572,11 @@ func (FramesClean) Shrink(pl engine.Plan) []engine.Plan {
 			if ps.Reuse {
 				q := clone()
 				q.Writers[wi].Passes[i].Reuse = false
+				out = append(out, q)
+			}
+			if ps.Wrap != "" {
+				q := clone()
+				q.Writers[wi].Passes[i].Wrap = ""
 				out = append(out, q)
 			}
 			if ps.StallDen != 0 || ps.Piggyback {
